@@ -67,27 +67,27 @@ type txSpec struct {
 }
 
 type syncRunner struct {
-	env       *wenv
-	addrs     []btcutil.Address
-	txs       map[int]*wire.MsgTx
-	txID      map[chainhash.Hash]int
-	blkTxs    map[int][]txSpec
-	top       int32 // highest height of any declared block
-	maxTip    int32 // highest height the wallet was ever asked to connect
-	malformed bool  // a raw op was executed: oracles off for the rest of the case
-	recW      uint32
-	zeroAt    map[int32]bool // heights at which an all-zero remembered hash was observed in this case
+	env            *wenv
+	addrs          []btcutil.Address
+	txs            map[int]*wire.MsgTx
+	txID           map[chainhash.Hash]int
+	blkTxs         map[int][]txSpec
+	top            int32 // highest height of any declared block
+	maxTip         int32 // highest height the wallet was ever asked to connect
+	malformed      bool  // a raw op was executed: oracles off for the rest of the case
+	recW           uint32
+	zeroAt         map[int32]bool // heights at which an all-zero remembered hash was observed in this case
 	brokenReported bool
 	recoveryTaint  bool // a start-up with a recovery window left stale state behind: later violations are its consequences
-	broken    bool           // RangeTransactions failed: the transaction store is inconsistent (sticky)
+	broken         bool // RangeTransactions failed: the transaction store is inconsistent (sticky)
 
 	// C02 (wallet level): every wallet transaction that was delivered to the wallet (its block was on the best chain while
 	// the wallet was running and synced, it was found by a start-up rescan/recovery, or it arrived unconfirmed)
 	seen map[int]txSpec
 
 	// NotificationServer client of the running wallet and the notification oracle's view
-	col      *ntfnCollector
-	cchain   []chainhash.Hash // the chain a client following the attached blocks has (index = height)
+	col    *ntfnCollector
+	cchain []chainhash.Hash // the chain a client following the attached blocks has (index = height)
 
 	// backend connection / rescans in flight (ops disc, reconnect, importkey, rfin)
 	connected bool   // false between `disc` and `reconnect`: the backend evolves without the wallet being told
@@ -95,9 +95,9 @@ type syncRunner struct {
 	inflight  string // "" | "reconnect" | "import-rescan": a rescan whose RescanFinished is still to come
 	missed    bool   // the rescan in flight has something to catch up (reconnect after a silent evolution)
 	raceTaint bool   // a block notification arrived while a catching-up rescan was in flight: the race the TODO in
-	                 // catchUpHashes documents (DESIGN §6 C15: explored, not flagged) — oracles off for the rest of the case
-	replayOff bool   // the wallet rolled back / caught up silently inside syncWithChain (no attach/detach calls): a client
-	                 // following the TransactionNotifications cannot reconstruct the chain; replay oracle off until restart
+	// catchUpHashes documents (DESIGN §6 C15: explored, not flagged) — oracles off for the rest of the case
+	replayOff bool // the wallet rolled back / caught up silently inside syncWithChain (no attach/detach calls): a client
+	// following the TransactionNotifications cannot reconstruct the chain; replay oracle off until restart
 	sentDisc []chainhash.Hash // hashes of the BlockDisconnected notifications that make disconnectBlock notify, in order
 	gotDet   []chainhash.Hash // DetachedBlocks delivered so far, in order
 }
@@ -320,7 +320,6 @@ func (r *syncRunner) ntfns() (string, string) {
 	}
 	return strings.Join(out, "|"), strings.Join(v, "; ")
 }
-
 
 func (r *syncRunner) Close() {
 	if r.col != nil {
@@ -1016,6 +1015,7 @@ func (r *syncRunner) oracle(ctx string) string {
 //   - every delivered transaction that is in no best-chain block (its block was disconnected, or it never was mined):
 //     unconfirmed if it is not a coinbase, gone if it is (wallet.stale-tx-still-confirmed, wallet.stale-tx-lost,
 //     wallet.stale-coinbase-kept).
+//
 // The engine's transactions spend external outputs only, so there are no dependants and no conflicts.  Skipped where
 // the ground truth is not unambiguous: malformed streams, an inconsistent store, a not yet chain-synced wallet, cases
 // tainted by a start-up with a recovery window that left stale state behind.
